@@ -4,7 +4,7 @@
 -/
 import TshVerif.Model.Lexer
 import TshVerif.Model.Sexp
-import TshVerif.Model.EmitBash
+import TshVerif.Model.ConvBash
 import TshVerif.Model.Parser
 import TshVerif.Model.Cli
 
